@@ -14,7 +14,8 @@ def do_uninstall(log: str) -> None:
     for line in open(log, encoding='utf-8'):
         if line.startswith('#'):
             continue
-        fname = line.strip()
+        # The name is the whole line: a file name may end (or begin) with blanks.
+        fname = line.rstrip('\n')
         try:
             if os.path.isdir(fname) and not os.path.islink(fname):
                 os.rmdir(fname)
